@@ -1,4 +1,5 @@
 import M3d.Lemmas.MeshDiag
+import M3d.Lemmas.MeshDiagHier
 /-!
 # C11 — mesh diagnostics, repair and nesting agree with their definitions
 
@@ -62,5 +63,170 @@ as inconsistent edges. -/
 example : needsRepair [(0,1,2),(0,2,3),(0,3,1),(1,3,2)] = false ∧
     needsRepair [(0,1,2),(0,2,3),(0,3,1)] = true ∧
     inconsistentEdges [(0,2,1),(0,2,3),(0,3,1),(1,3,2)] = [(0,2),(2,1),(1,0)] := by decide
+
+/-! ## fan connectivity -/
+
+/-- **`Mesh.SingularVertices` is exact** (meshes without degenerate faces, every iteration order):
+the stack search with its swap-remove bookkeeping reports exactly the vertices whose fan graph —
+the faces at the vertex, two of them adjacent when `SharesEdge` — is disconnected. -/
+theorem singular_vertices_eq (ts : List Tri) (hd : NoDegenerate ts) (v : Nat) :
+    v ∈ singularVertices ts ↔ v ∈ verts ts ∧ ¬ FanGraphConnected ts v :=
+  singular_iff ts hd v
+
+/-- Without any hypothesis on the faces: what the search leaves unvisited at `v` is exactly the
+set of faces at `v` that cannot be reached from the first one (`tris[0]`) through shared edges. -/
+theorem singular_search_exact (ts : List Tri) (v : Nat) (t : Face) (rest : List Face)
+    (hF : facesAt v (enum ts) = t :: rest) (y : Face) :
+    y ∈ fanUnvisited ts v ↔ y ∈ rest ∧ ¬ Reach fanAdj rest t y :=
+  mem_fanUnvisited ts v t rest hF y
+
+/-- Non-vacuity: two tetrahedra touching in vertex 0 — vertex 0 is singular, nothing else is. -/
+example : singularVertices [(0,1,2),(0,2,3),(0,3,1),(1,3,2),(0,5,4),(0,6,5),(0,4,6),(4,5,6)] = [0] := by
+  decide
+
+/-- **`ptrCoord.Clusters` partitions the faces at a vertex into its fan components**: the families
+are a rearrangement of the faces at `p` (nothing lost, nothing twice), every family is connected
+(all its members are reachable from one of them through faces sharing an edge at `p`), and no face
+of one family is adjacent to a face of another. -/
+theorem clusters_partition (ts : List Tri) (p : Nat) :
+    (clusters ts p).flatten.Perm (facesAt p (enum ts)) ∧
+    (∀ F ∈ clusters ts p, ∃ x ∈ F, ∀ y ∈ F, Reach (adjAt p) (facesAt p (enum ts)) x y) ∧
+    (clusters ts p).Pairwise (fun F G => ∀ a ∈ F, ∀ b ∈ G, adjAt p a b = false) :=
+  families_spec (adjAt p) _ _ (Nat.le_refl _) ((enum_nodup ts).filter _)
+
+/-! ## hierarchy -/
+
+/-- **`removeAllConnected` extracts a connected component**: the stripped faces and the remaining
+ones are a rearrangement of what was in the mesh, every stripped face is connected (through faces
+sharing a vertex) to a face at the start vertex, and no remaining face shares a vertex with a
+stripped one. -/
+theorem components_partition (rem : List Face) (c : Nat) :
+    ((removeAllConnected rem c).1 ++ (removeAllConnected rem c).2).Perm rem ∧
+    (∀ y ∈ (removeAllConnected rem c).1, ∃ a ∈ facesAt c rem, Reach sharesVert rem a y) ∧
+    (∀ a ∈ (removeAllConnected rem c).1, ∀ b ∈ (removeAllConnected rem c).2, sharesVert a b = false) :=
+  ⟨(removeAllConnected_spec rem c).1, (removeAllConnected_spec rem c).2.1, (removeAllConnected_spec rem c).2.2.1⟩
+
+theorem hierInv_init (ts : List Tri) (sorted : List Nat) (hs : ∀ v ∈ verts ts, v ∈ sorted) :
+    HierInv (enum ts) sorted (enum ts) := by
+  refine ⟨fun _ h => h, fun g hg => ?_, fun _ _ h hh _ => hh⟩
+  refine ⟨g.2.1, hs _ ?_, by simp [hasVert, triVerts]⟩
+  simp only [verts, List.mem_eraseDups, vertsAll, List.mem_flatMap]
+  exact ⟨g.2, mem_enum_snd hg, by simp [triVerts]⟩
+
+/-- **The hierarchy loses and duplicates no face** — for *every* containment oracle (even a wrong
+one), every face order and every sweep order that lists all vertices: the `FullMesh` of the forest
+built by `uncheckedMeshToHierarchy` is a rearrangement of the input faces. -/
+theorem hierarchy_partition (encTop encIn : Comp → Comp → Bool) (sorted : List Nat) (ts : List Tri)
+    (hs : ∀ v ∈ verts ts, v ∈ sorted) :
+    ((Forest.fullMesh (·.2) (meshToHierarchy encTop encIn sorted ts)).map (·.2)).Perm ts := by
+  have h := (hierLoop_spec (enum ts) encTop encIn sorted (enum ts) .nil (hierInv_init ts sorted hs)).1
+  simp only [Forest.fullMesh, List.nil_append] at h
+  have := h.map (·.2)
+  rw [enum_map_snd] at this
+  exact this
+
+/-- … and **every node of the hierarchy is a connected component of the mesh**: non-empty,
+connected (through faces sharing a vertex) to the faces at its sweep vertex, and closed (a face
+sharing a vertex with a face of the node belongs to the node). -/
+theorem hierarchy_nodes_are_components (encTop encIn : Comp → Comp → Bool) (sorted : List Nat)
+    (ts : List Tri) (hs : ∀ v ∈ verts ts, v ∈ sorted) :
+    ∀ x ∈ Forest.nodes (meshToHierarchy encTop encIn sorted ts),
+      (∀ y ∈ x.2, ∃ a ∈ facesAt x.1 (enum ts), Reach sharesVert (enum ts) a y) ∧
+      (∀ a ∈ x.2, ∀ h ∈ enum ts, sharesVert a h = true → h ∈ x.2) ∧ x.2 ≠ [] := by
+  intro x hx
+  have h := (hierLoop_spec (enum ts) encTop encIn sorted (enum ts) .nil (hierInv_init ts sorted hs)).2 x hx
+  rcases h with h | h
+  · simp [Forest.nodes] at h
+  · exact h
+
+/-- The components in sweep order (`strippedComps`) are what the loop inserts, one leaf at a time. -/
+theorem hierarchy_is_insertion_sequence (enc : Comp → Comp → Bool) (sorted : List Nat) (ts : List Tri) :
+    meshToHierarchy enc enc sorted ts =
+      (strippedComps (enum ts) sorted (enum ts)).foldl (fun f x => Forest.insertLeaf enc x f) .nil := by
+  unfold meshToHierarchy
+  rw [hierLoop_eq_foldl]
+  congr 1
+  funext f x
+  exact Forest.insertTop_eq_insertLeaf enc x f
+
+/-- **Nesting** — assume the containment oracle `enc` (the same answer for the sweep vertex and
+for `VertexSlice()[0]`, as for a correct point-in-component test on non-intersecting components)
+is, on the components `cs` of the mesh: irreflexive, transitive, laminar (two components
+enclosing a third are nested), and compatible with the sweep (a component is swept after every
+component that encloses it).  Then in the forest built by `uncheckedMeshToHierarchy` every
+component is nested under exactly the components that enclose it:
+`a` is an ancestor of `b` iff `enc a b`. -/
+theorem hierarchy_nesting (enc : Comp → Comp → Bool) (sorted : List Nat) (ts : List Tri)
+    (hsn : sorted.Nodup)
+    (hirr : ∀ a ∈ strippedComps (enum ts) sorted (enum ts), enc a a = false)
+    (hord : (strippedComps (enum ts) sorted (enum ts)).Pairwise (fun a b => enc b a = false))
+    (htrans : ∀ a ∈ strippedComps (enum ts) sorted (enum ts), ∀ b ∈ strippedComps (enum ts) sorted (enum ts),
+      ∀ c ∈ strippedComps (enum ts) sorted (enum ts), enc a b = true → enc b c = true → enc a c = true)
+    (hlam : ∀ a ∈ strippedComps (enum ts) sorted (enum ts), ∀ b ∈ strippedComps (enum ts) sorted (enum ts),
+      ∀ c ∈ strippedComps (enum ts) sorted (enum ts), enc a c = true → enc b c = true →
+        a = b ∨ enc a b = true ∨ enc b a = true) :
+    (Forest.nodes (meshToHierarchy enc enc sorted ts)).Perm (strippedComps (enum ts) sorted (enum ts)) ∧
+    ∀ a ∈ Forest.nodes (meshToHierarchy enc enc sorted ts),
+      ∀ b ∈ Forest.nodes (meshToHierarchy enc enc sorted ts),
+        Forest.IsAnc a b (meshToHierarchy enc enc sorted ts) ↔ enc a b = true := by
+  rw [hierarchy_is_insertion_sequence]
+  have hnd := strippedComps_nodup (enum ts) sorted (enum ts) hsn
+  have := Forest.build_wellNested enc (strippedComps (enum ts) sorted (enum ts)) .nil
+    (by simpa [Forest.nodes] using hnd) (by intro a ha; simp [Forest.nodes] at ha)
+    (by simpa [Forest.nodes] using hirr) (by intro x _ b hb; simp [Forest.nodes] at hb) hord
+    (by simpa [Forest.nodes] using htrans) (by simpa [Forest.nodes] using hlam)
+  exact ⟨by simpa [Forest.nodes] using this.2, this.1⟩
+
+/-- **Even–odd** — under the hypotheses of `hierarchy_nesting`, and for a point whose containment
+in the components (`inside`) is consistent with the nesting (a point inside a component is inside
+every component enclosing that one; two components containing the point are nested — true for
+non-intersecting closed components and a correct oracle), `MeshHierarchy.Contains` (OR-ed over the
+roots) is the parity of the number of components containing the point, i.e. the even–odd rule on
+the whole mesh. -/
+theorem hierarchy_contains_eq_evenodd (enc : Comp → Comp → Bool) (inside : Comp → Bool)
+    (sorted : List Nat) (ts : List Tri) (hsn : sorted.Nodup)
+    (hirr : ∀ a ∈ strippedComps (enum ts) sorted (enum ts), enc a a = false)
+    (hord : (strippedComps (enum ts) sorted (enum ts)).Pairwise (fun a b => enc b a = false))
+    (htrans : ∀ a ∈ strippedComps (enum ts) sorted (enum ts), ∀ b ∈ strippedComps (enum ts) sorted (enum ts),
+      ∀ c ∈ strippedComps (enum ts) sorted (enum ts), enc a b = true → enc b c = true → enc a c = true)
+    (hlam : ∀ a ∈ strippedComps (enum ts) sorted (enum ts), ∀ b ∈ strippedComps (enum ts) sorted (enum ts),
+      ∀ c ∈ strippedComps (enum ts) sorted (enum ts), enc a c = true → enc b c = true →
+        a = b ∨ enc a b = true ∨ enc b a = true)
+    (hup : ∀ a ∈ strippedComps (enum ts) sorted (enum ts), ∀ b ∈ strippedComps (enum ts) sorted (enum ts),
+      enc a b = true → inside b = true → inside a = true)
+    (hnest : ∀ a ∈ strippedComps (enum ts) sorted (enum ts), ∀ b ∈ strippedComps (enum ts) sorted (enum ts),
+      inside a = true → inside b = true → a = b ∨ enc a b = true ∨ enc b a = true) :
+    Forest.contains inside (meshToHierarchy enc enc sorted ts) =
+      decide ((strippedComps (enum ts) sorted (enum ts)).countP inside % 2 = 1) := by
+  obtain ⟨hperm, hanc⟩ := hierarchy_nesting enc sorted ts hsn hirr hord htrans hlam
+  have hnd : (Forest.nodes (meshToHierarchy enc enc sorted ts)).Nodup :=
+    hperm.nodup_iff.mpr (strippedComps_nodup (enum ts) sorted (enum ts) hsn)
+  have hm : ∀ a, a ∈ Forest.nodes (meshToHierarchy enc enc sorted ts) ↔
+      a ∈ strippedComps (enum ts) sorted (enum ts) := fun a => hperm.mem_iff
+  rw [Forest.contains_eq_parity inside _ hnd]
+  · simp only [Forest.cnt, hperm.countP_eq]
+  · intro a b h hb
+    exact hup a ((hm a).mp h.mem.1) b ((hm b).mp h.mem.2) ((hanc a h.mem.1 b h.mem.2).mp h) hb
+  · intro a ha b hb hia hib
+    rcases hnest a ((hm a).mp ha) b ((hm b).mp hb) hia hib with h | h | h
+    · exact Or.inl h
+    · exact Or.inr (Or.inl ((hanc a ha b hb).mpr h))
+    · exact Or.inr (Or.inr ((hanc b hb a ha).mpr h))
+
+/-- Non-vacuity of the nesting hypotheses: two tetrahedra, the first (swept from vertex 0)
+enclosing the second (swept from vertex 4) — the hypotheses hold, the second ends up as the child
+of the first, and a point inside both is classified as outside. -/
+example :
+    let ts : List Tri := [(0,1,2),(0,2,3),(0,3,1),(1,3,2),(4,5,6),(4,6,7),(4,7,5),(5,7,6)]
+    let enc : Comp → Comp → Bool := fun a b => a.1 == 0 && b.1 == 4
+    let sorted := [0,4,1,2,3,5,6,7]
+    let cs := strippedComps (enum ts) sorted (enum ts)
+    cs.length = 2 ∧ sorted.Nodup ∧ (∀ a ∈ cs, enc a a = false) ∧
+    cs.Pairwise (fun a b => enc b a = false) ∧
+    (∀ a ∈ cs, ∀ b ∈ cs, ∀ c ∈ cs, enc a b = true → enc b c = true → enc a c = true) ∧
+    (∀ a ∈ cs, ∀ b ∈ cs, ∀ c ∈ cs, enc a c = true → enc b c = true → a = b ∨ enc a b = true ∨ enc b a = true) ∧
+    Forest.contains (fun c => c.1 == 0) (meshToHierarchy enc enc sorted ts) = true ∧
+    Forest.contains (fun _ => true) (meshToHierarchy enc enc sorted ts) = false := by
+  decide
 
 end M3d.C11
